@@ -24,7 +24,8 @@ TECHNIQUE = 'explicit-state model checking (TLC) of the solver state machine + e
 RULE = ('states/transitions: TLC over SolveT.tla (Outcomes={conv,moved}); every terminal state replayed on the real solve_t '
         'under all single (quick) / pairwise (thorough) concretisation deviations; plus all (t, offset) in [-5,4]x[-6,6], '
         'solve_period over label spans, the same traces through solve_period/solve and on classes stacking the Tracer/Alias mixins, and parser-built systems x option lattice vs reference loop. '
-        'non-trivial = execution performing at least one evaluation pass or rejecting with its prescribed exception')
+        'non-trivial = execution performing at least one evaluation pass or rejecting with its prescribed exception'
+        ' solve_period in the offset family over NumPy-integer, NumPy-string and PeriodIndex spans; every out-of-span offset also on a period solved by an earlier call.')
 ASSUMPTIONS = [
     'scripted models realise outcomes exactly (tol=0.5, steps multiples of 0.25)',
     'TLC, CPython and NumPy elementary semantics are trusted',
@@ -275,6 +276,10 @@ def run_offset_case(case):
     m = scripted.make_scripted(span, {pos: [('conv', 0), ('conv', 0)]})
     for i, name in enumerate(m.names):
         m[name] = [10.0 * (i + 1) + j for j in range(n)]
+    if case.get('solved_before'):
+        # the period was solved by an earlier call: a refused call leaves that result in place as well
+        refsolve.call_outcome(m.solve_t, pos, tol=scripted.TOL)
+        m.prepare({pos: [('conv', 0), ('conv', 0)]}, False, False)
     before = scripted.snapshot(m)
     init = {name: m[name].copy() for name in m.names}
     if case.get('numpy_args'):
@@ -339,6 +344,12 @@ def run_offsets(acc, tier):
                 acc.nontrivial += 1
                 for key, exp, obs, what in run_offset_case(case):
                     acc.violation(key, case, exp, obs, what)
+                if not (0 <= (t + n if t < 0 else t) + offset < n):
+                    case5 = dict(case, solved_before=True)
+                    acc.evaluations += 1
+                    acc.nontrivial += 1
+                    for key, exp, obs, what in run_offset_case(case5):
+                        acc.violation(key + ':solved-before', case5, exp, obs, what)
                 if route == 'solve_period':
                     for labels in ('np', 'np_str', 'pd'):
                         case4 = dict(case, labels=labels)
